@@ -290,6 +290,40 @@ def run_twin(ns, fam, ops_in=None, seed=0, profile="basic", n_steps=30):
                 if la[0].startswith("err"):
                     viol.append((("C05", "C07"), "%s raised `%s` although nothing changed the files from outside" % (kind, la[0])))
             # ---- after the step
+            # A mirrored child handle that the buffered side has just detached while the twin's is
+            # still attached.  The buffered side synchronises its objects at more points than the
+            # unbuffered one (every flush merges the buffered content into the object that flushes),
+            # so it can notice EARLIER that the handle's position is gone.  That is legitimate iff
+            # the twin's attachment is owed to stale memory: in what the twin's resource holds NOW
+            # the position does not exist (or holds another kind) - the twin would detach at its
+            # next load too, unless the position reappears by then.  Such a handle is no longer
+            # mirrored; a handle whose position still exists must stay attached (the rule below).
+            for k, tb in list(b_handles.items()):
+                try:
+                    ta = ra.handles[k]
+                    if attached_path(ns, ta) is not None:
+                        continue
+                    pb = attached_path(ns, tb)
+                    if pb is None:
+                        continue
+                    rootb = tb._root if tb._root is not None else tb
+                    rib = [i for i, o in enumerate(b_objs) if o is rootb]
+                    if not rib:
+                        continue
+                    cur = wb.read(obj_res[rib[0]])
+                    gone = cur is MISSING
+                    if not gone:
+                        for seg in pb:
+                            try:
+                                cur = cur[seg]
+                            except (KeyError, IndexError, TypeError):
+                                gone = True
+                                break
+                    if gone or type(cur) is not type(tb._to_base()):
+                        del b_handles[k]
+                        stats["handles_unmirrored_position_gone"] += 1
+                except Exception:  # noqa: BLE001
+                    continue
             size, cap = cls.get_current_buffer_size(), cls.get_buffer_capacity()
             if size > cap:
                 viol.append((("C15",), "after %s the buffer size %d exceeds the capacity %d" % (kind, size, cap)))
